@@ -1,1 +1,5 @@
 # pid, level, technique, text, note, design_ref  (exec'd by manifest_gen.py)
+reg("C11", "model_checking", "TLA+ spec (Mesh/GridModel) checked by TLC over an exhaustive sub-complex universe; terminal states replayed into Grid()",
+    "TLC exhaustively explores GridModel (transcribed edge enumeration and adjacency search) over every sub-complex of the base meshes with rotation/reversal patterns and checks it against the numbering-free requirement module Mesh.tla; every terminal state is emitted as an obligation and replayed into bempp_cl.api.Grid, refine, barycentric_refinement, union and grid_from_segments, comparing sets/functions exactly and geometry against integer oracles.",
+    "Trusted: TLC, the JSON boundary, numpy for comparing floats with integer oracles (1e-10 relative). Bounded to the universe U1 (<= 12 elements, integer coordinates).",
+    "DESIGN 3.1, 3.2, 5 C11")
